@@ -3,7 +3,7 @@ from ..lockprops import make_jobs, replay_lock, run_lock_job
 
 ID = "C07"
 LEVEL = "exploration"
-PROFILE = {"garbage": 0.05, "ctl": 0.2, "semicolon": False, "sleep": True, "ota": True, "unicode": 0.05, "lag": True}
+PROFILE = {"garbage": 0.05, "ctl": 0.2, "semicolon": False, "sleep": True, "ota": True, "reload": 0.05, "unicode": 0.05, "lag": True}
 
 
 def jobs(tier, seed):
@@ -40,7 +40,9 @@ def finish(agg, tier):
                 "model event sequence, lag positions); non-trivial when >= 1 burst was judged and >= 1 line for an awake node "
                 "passed while another node slept.",
         "floors": [("bursts_judged", c.get("bursts_judged", 0), 1500), ("bursts_releasing_withheld", c.get("bursts_releasing_withheld", 0), 500),
-                   ("sends_to_awake_while_others_sleep", c.get("sends_to_awake_while_others_sleep", 0), 1500)],
-        "assumptions": ["'asleep' is the model's notion: announced smart sleep while having >= 1 child"],
+                   ("sends_to_awake_while_others_sleep", c.get("sends_to_awake_while_others_sleep", 0), 1500),
+                   ("reloads", c.get("reloads", 0), 200)],
+        "assumptions": ["in a third of the histories the node table goes through the persistence file (json / pickle) and back at random points: the tree survives, sleep state, withheld replies, desired values and reboot flags start empty",
+                        "'asleep' is the model's notion: announced smart sleep while having >= 1 child"],
         "show": ["histories", "bursts_judged", "bursts_releasing_withheld", "released_lines", "sends_to_awake_while_others_sleep"],
     }
